@@ -3,14 +3,15 @@ import os
 import common
 from common import cq_list
 
-THEOREMS = ["c18_valid_iff", "c18_ever_iff", "c18_lint", "c18_lower_ascii"]
+THEOREMS = ["c18_valid_iff", "c18_ever_iff", "c18_lint", "c18_lower_ascii", "c18_regen_entries_partial", "c18_regen_fails_closed", "c18_regen_validate"]
 
 
 def run(ctx):
     for t, r in common.standard_theorems(ctx, "Props.C18", THEOREMS):
         ctx.violation("theorem:" + t, "property theorem %s no longer checks: %s" % (t, r[:500]),
                       {"theorem_or_correspondence": "ZL.Props.C18." + t}, found_input=False)
-    d = common.harness_json(["c18"])
+    gtld = common.build_gtld_update()
+    d = common.harness_json(["c18"], env={"VERIF_GTLD_BIN": gtld})
     gd = common.gendir("C18")
     with open(os.path.join(gd, "TldData.v"), "w") as f:
         f.write("From ZL Require Import Base.Bytes Kernels.Tld.\n")
@@ -43,7 +44,18 @@ def run(ctx):
     f2 = common.corr_stream(ctx, "valid", d["cases"]["valid"], header, "chk_valid", "Tld.has_valid_tld vs util.HasValidTLD", shard=300)
     f3 = common.corr_stream(ctx, "ever", d["cases"]["ever"], header, "chk_ever", "Tld.is_in_tld_map vs util.IsInTLDMap")
     f4 = common.corr_stream(ctx, "lint", d["cases"]["lint"], header, "chk_lint", "Tld.lint_tld vs e_dnsname_not_valid_tld on re-dated certificates")
+    header2 = ("From ZL Require Import Base.Bytes Base.Corr Framework.Core Kernels.Tld Kernels.GtldUpdate.\nOpen Scope Z_scope.\n"
+               "Definition gentry_eqb (a b : gentry) : bool := beqb (g_name a) (g_name b) && beqb (g_deleg a) (g_deleg b) && beqb (g_removal a) (g_removal b).\n"
+               "Definition same_table (m o : list (bytes * gentry)) : bool :=\n"
+               "  Nat.eqb (length m) (length o) && forallb (fun ke => match get (fst ke) m with Some e => gentry_eqb e (snd ke) | None => false end) o &&\n"
+               "  forallb (fun ke => match get (fst ke) o with Some e => gentry_eqb e (snd ke) | None => false end) m.\n"
+               "Definition chk_regen (c : list gentry * bytes * option (list (bytes * gentry)) * bool) : bool :=\n"
+               "  match c with (gs, body, obs, vok) =>\n"
+               "    Bool.eqb (validate gs) vok &&\n"
+               "    match render gs body, obs with None, None => true | Some m, Some o => same_table m o | _, _ => false end end.\n")
+    f5 = common.corr_stream(ctx, "regen", d["cases"].get("regen", []), header2, "chk_regen", "GtldUpdate.render / validate vs cmd/zlint-gtld-update (renderGTLDMap, validateGTLDs) on generated ICANN documents", shard=120)
     if not mon:
+        common.report_disagreements(ctx, "regen", f5, "Kernels.GtldUpdate.render", [])
         common.report_disagreements(ctx, "dates", f1, "Kernels.Tld.parse_date", [])
         common.report_disagreements(ctx, "valid", f2, "Kernels.Tld.has_valid_tld", [])
         common.report_disagreements(ctx, "ever", f3, "Kernels.Tld.is_in_tld_map", [])
